@@ -39,12 +39,21 @@ CONSTANTS Nodes,          \* node names
           DevForkPrefix,  \* fork takes a node whose name is a prefix of its own name for its own
           DevMptCount,    \* MPT written with the total as -np
           DevSrunFirst,   \* srun node list taken from the first rank only
-          DevFindLast     \* find_launcher returns the last able method
+          DevFindLast,    \* find_launcher returns the last able method
+          DevOptLeak      \* a value derived for one task is stored into the (empty) options
+                          \* section of the launch method config and used for later tasks
 
 VARIABLES cfg, res, n, cur, done
 vars == <<cfg, res, n, cur, done>>
 
-Cfg(m, fl, mode, vnew) == [m |-> m, fl |-> fl, mode |-> mode, vnew |-> vnew]
+\* opt: the options section of the launch method's part of the resource config
+\* (lm_cfg) - absent | empty (present, nothing pinned) | pinned (the key the
+\* method reads is set: IBRUN tasks_per_node)
+CfgO(m, fl, mode, vnew, opt) == [m |-> m, fl |-> fl, mode |-> mode, vnew |-> vnew, opt |-> opt]
+Cfg(m, fl, mode, vnew) == CfgO(m, fl, mode, vnew, "absent")
+
+CoresPerNode == 16
+PinnedTpn    == 4
 
 AllConfigs ==
   {Cfg("FORK", "plain", "std", FALSE), Cfg("SSH", "plain", "std", FALSE),
@@ -55,6 +64,7 @@ AllConfigs ==
   \cup {Cfg("SRUN", "plain", "std", v) : v \in BOOLEAN}
   \cup {Cfg(m, "plain", "std", FALSE) : m \in {"APRUN", "CCMRUN", "IBRUN", "PRTE"}}
   \cup {Cfg("JSRUN", "plain", md, FALSE) : md \in {"rs", "erf"}}
+  \cup {CfgO("IBRUN", "plain", "std", FALSE, o) : o \in {"empty", "pinned"}}
 
 (* ---- placement domain --------------------------------------------------- *)
 \* k-th rank (from 0) of a task on its node gets these index sets
@@ -145,8 +155,20 @@ Cmd(np, a, hosts, nn, pins, via, extra) ==
 
 FirstCores(P) == [i \in DOMAIN P |-> SetMin(P[i].cores)]
 
+\* ibrun: IBRUN_TASKS_PER_NODE is the pinned option, else derived from the task
+DerivedTpn(T) == LET d == CoresPerNode \div (Len(T.p) * Cardinality(T.p[1].cores)) IN
+                 IF d = 0 THEN 1 ELSE d
+OptLeaks(c)   == DevOptLeak /\ c.m = "IBRUN" /\ c.opt = "empty"
+Tpn(c, r, T)  == IF c.opt = "pinned" THEN PinnedTpn
+                 ELSE IF OptLeaks(c) /\ r # <<>> THEN r[1]
+                 ELSE DerivedTpn(T)
+
+\* res: what generations leave behind in the launcher object or in the config
+\* objects it was given (lm_cfg, rm_info); <<>> in the intended design
 NextRes(c, r, T) ==
-  IF DevDplaceAccum /\ c.m = "MPIRUN" /\ c.fl = "dplace" THEN Append(r, FirstCores(T.p)) ELSE r
+  IF DevDplaceAccum /\ c.m = "MPIRUN" /\ c.fl = "dplace" THEN Append(r, FirstCores(T.p))
+  ELSE IF OptLeaks(c) /\ r = <<>> THEN <<DerivedTpn(T)>>
+  ELSE r
 
 Gen(c, r, T) ==
   LET P  == T.p
@@ -173,7 +195,8 @@ Gen(c, r, T) ==
     [] c.m = "SRUN" ->
          Cmd(k, 1, IF DevSrunFirst THEN <<hs[1]>> ELSE DistinctSeq(hs), Cardinality(NodeSet(P)), NoPins,
              IF c.vnew /\ Cardinality(NodeSet(P)) > Thr THEN "file" ELSE "list", <<>>)
-    [] c.m \in {"APRUN", "CCMRUN", "IBRUN"} -> Cmd(k, 1, <<>>, 0, NoPins, "none", <<>>)
+    [] c.m \in {"APRUN", "CCMRUN"} -> Cmd(k, 1, <<>>, 0, NoPins, "none", <<>>)
+    [] c.m = "IBRUN" -> Cmd(k, 1, <<>>, 0, NoPins, "none", <<Tpn(c, r, T)>>)
     [] c.m = "PRTE" -> Cmd(k, 1, Grouped(hs), 0, NoPins, "list", <<>>)
     [] c.m = "JSRUN" ->
          IF c.mode = "erf"
@@ -237,7 +260,9 @@ InvPins       == Generated => PinsOK(cfg, cur.C, cur.T.p)
 InvRefuse     == cur.kind = "gen" /\ CannotStart(cfg, cur.T.p, cur.T.mpi, Local) => cur.out = "refuse"
 InvOrder      == cur.kind = "find" => /\ OrderOK(cur.cans, cur.sel)
                                       /\ SelAble(cur.ord, cur.sel, cur.T.p, cur.T.mpi, Local)
+\* generating a command leaves the launcher and its config objects untouched
 InvResFixed   == res = <<>>
+InvConfigUntouched == InvResFixed
 
 \* the command depends only on the task at hand
 ActHistoryFree ==
